@@ -299,13 +299,13 @@ def C19(tier, seed):
 
 def C18(tier, seed):
     chk = Check('C18', tier, seed)
-    be = [0, 3] + ([4] if tier == 'thorough' else [])
+    be = [0, 3]     # function_pointer_array cannot hold base-class / Kleene rows (quantifier); back11 does not compile a Kleene row driven with temporaries
     oracle_units(chk, ['K'], be, 'C18', proj=STD, opts={'defines': ['VF_KLEENE_ON 1']}, bfs_depth=5, timeout=120, unwind=8, strats=['nk', 'nkG', 'pk'], cbmc_extra=('--unwindset', 'strcmp.0:48'))
     # payload and dynamic type through deferral by a Kleene row (Defer action): 0..2 deferred events with distinct payloads
-    oracle_units(chk, ['Kd'], [0] + ([2] if tier == 'thorough' else []), 'C18', proj=STD, check_queue=True,
+    oracle_units(chk, ['Kd'], [0], 'C18', proj=STD, check_queue=True,
                  opts={'defines': ['VF_KLEENE_ON 1'], 'queue_api': True, 'has_deferred': True},
-                 conf_filter=lambda c: c.started and len(c.deferred) + len(c.queue) <= 2, bfs_depth=5, max_confs=30, timeout=120, unwind=12,
-                 strats=['nk', 'nkG', 'pk'], cbmc_extra=('--unwindset', 'strcmp.0:48'))
+                 conf_filter=lambda c: c.started and len(c.deferred) + len(c.queue) <= (3 if tier == 'thorough' else 2), bfs_depth=(6 if tier == 'thorough' else 5),
+                 max_confs=(60 if tier == 'thorough' else 30), timeout=120, unwind=12, strats=['nk', 'nkG', 'pk'], cbmc_extra=('--unwindset', 'strcmp.0:48'))
     chk.assumptions.append('C18: the payload seen by Kleene behaviours is read back through any_cast on the dynamic type reported by any::type(); typeinfo name comparison uses CBMC strcmp model')
     return chk
 
@@ -424,6 +424,19 @@ def C20(tier, seed):
                           variants, labels, unwind=12, extra_cbmc=['--memory-leak-check'])
     chk.add_unit(u)
     for h in range(len(variants)): chk.jobs.append(Job(u, h, unwind=12, timeout=300))
+    # machine level: the event objects the library stores (message queue, deferred queue, event pool) are alive exactly as long as
+    # they are pending.  Event types report every construction / destruction (vf_life); e3 is larger than backmp11's inline buffer.
+    counted = {'e0': 0, 'e1': 0, 'e2': 0, 'e3': 60}
+    def live_leaf(conf, st, dec, log, res, post):
+        return ['VF_CHECK(vf_live == VFN(vf_qsize)(), "C20:event objects alive != events pending in the machine");'] + \
+               (['VF_CHECK(vf_live == 0, "C20:event objects alive after the machine was destroyed");'] if st[0] == 'destroy' else [])
+    def live_pre(conf): return ['VF_CHECK(vf_live == %d && vf_live == VFN(vf_qsize)(), "C20:prefix:event objects alive != events pending");' % (len(conf.queue) + len(conf.deferred))]
+    oracle_units(chk, ['D'], [0, 3] + ([2] if tier == 'thorough' else []), 'C20', proj=STD, check_result=False, check_post=False,
+                 opts={'queue_api': True, 'has_deferred': True, 'counted_events': counted},
+                 steps_fn=lambda prog: [('ev', e) for e in prog.events] + [('enq', 'e1'), ('enq', 'e3'), ('execq',), ('destroy',)],
+                 bfs_steps_fn=lambda prog: [('start',)] + [('ev', e) for e in prog.events] + [('enq', 'e1', '0'), ('enq', 'e3', '0')],
+                 conf_filter=lambda c: c.started and len(c.deferred) + len(c.queue) <= 2 and not (c.deferred and c.queue), bfs_depth=5, max_confs=(60 if tier == 'thorough' else 24),
+                 extra_leaf=live_leaf, extra_pre=live_pre, timeout=120, unwind=12, strats=['nk', 'nkG', 'pk'])
     chk.bounds.update({'kernel': 'basic_polymorphic<B,56,8>: make / copy-construct / move-construct / copy-assign / move-assign (incl. self) / destroy',
                        'pre_states': [BP_PRE[p] for p in pres], 'type_pairs': len(pairs), 'symbolic': 'operation, both slot indices, which of the two types is made, 32-bit value; values of the pre-state objects',
                        'unwind': 12})
